@@ -271,7 +271,8 @@ Proof.
   split; [reflexivity|]. split; [reflexivity|].
   split. { unfold ex_listing, ble. repeat constructor; vm_compute; discriminate. }
   split. { intros n [<-|[<-|[<-|[<-|[]]]]]; vm_compute; reflexivity. }
-  split. { intros n y [<-|[<-|[<-|[<-|[]]]]]; vm_compute; intros H; inversion H; subst; split; vm_compute; try reflexivity; split; discriminate. }
+  split. { intros n y [<-|[<-|[<-|[<-|[]]]]] H; vm_compute in H; inversion H; subst;
+           (split; [vm_compute; reflexivity|]); vm_compute; (split; [intros; discriminate|reflexivity]). }
   eexists. split; vm_compute; reflexivity.
 Qed.
 
